@@ -344,7 +344,7 @@ func runQ(r *rt.Run, t *rt.Trace) {
 	// seeded random: depth-3 shapes (any size) with random user time predicates
 	nRand := 150
 	if r.Thorough() {
-		nRand = 3000
+		nRand = 6000
 	}
 	for k := 0; k < nRand; k++ {
 		sh := s3[r.Rand.Intn(len(s3))]
@@ -868,7 +868,7 @@ func runTasks(r *rt.Run, t *rt.Trace) error {
 	// seeded random settings and spans
 	nRand := 40
 	if r.Thorough() {
-		nRand = 600
+		nRand = 1000
 	}
 	for i := 0; i < nRand; i++ {
 		c := mk()
